@@ -641,7 +641,8 @@ func main() {
 	type tall struct{ m, size, red int }
 	talls := []tall{{10, 3, 8500}, {2, 1, 20000}, {5, 2, 9000}, {8, 1, 8400}}
 	if thorough {
-		talls = append(talls, tall{3, 1, 65535}, tall{16, 2, 16383}, tall{7, 5, 30000}, tall{33, 1, 12000}, tall{4, 3, 40000})
+		// (rows x size kept below what coqc parses as one list term: ~20,000 rows / ~60 kB of octets per case)
+		talls = append(talls, tall{3, 1, 20000}, tall{16, 2, 16383}, tall{7, 5, 9000}, tall{33, 1, 12000}, tall{4, 3, 12000})
 	}
 	for _, b := range talls {
 		data := r.Bytes(b.m * b.size)
